@@ -103,6 +103,8 @@ Section Correct.
   Variable lin : op -> R -> R.
   Variable bil : op -> R -> R -> R.
   Hypothesis lin_add : forall o a b, lin o (radd a b) = radd (lin o a) (lin o b).
+  Hypothesis bil_add_l : forall o a a' b, bil o (radd a a') b = radd (bil o a b) (bil o a' b).
+  Hypothesis bil_add_r : forall o a b b', bil o a (radd b b') = radd (bil o a b) (bil o a b').
 
   Notation rv := (rval R).
   Notation L := (RLeaf R).
@@ -145,7 +147,16 @@ Section Correct.
   Proof. destruct o; try discriminate; reflexivity. Qed.
 
   Lemma gadget_name_inv g : elem_gadget g = true -> gadget_of_name (gadget_name g) = Some g.
-  Proof. destruct g as [| |p]; try destruct p; try discriminate; reflexivity. Qed.
+  Proof.
+    destruct g as [| |p]; try destruct p; try discriminate; try reflexivity.
+    intros _. repeat match goal with b : bool |- _ => destruct b end; reflexivity.
+  Qed.
+
+  Notation bprod := (bprod R rmul bil).
+  Lemma bprod_add_l o a a' b : bprod o (radd a a') b = radd (bprod o a b) (bprod o a' b).
+  Proof. destruct o; try apply bil_add_l. cbn [MpcCompileSem.bprod]. ring. Qed.
+  Lemma bprod_add_r o a b b' : bprod o a (radd b b') = radd (bprod o a b) (bprod o a b').
+  Proof. destruct o; try apply bil_add_r. cbn [MpcCompileSem.bprod]. ring. Qed.
 
   Lemma rel_true_inv x vc : rel true (L x) vc -> exists a b c, vc = T3 a b c /\ radd (radd a b) c = x.
   Proof. intros (x' & a & b & c & Hx & Hv & Hs). inversion Hx; subst. eauto. Qed.
@@ -185,7 +196,7 @@ Section Correct.
       - rewrite <- (evals_length _ _ _ _ _ _ _ _ _ _ _ _ _ _ E). apply znth_last. }
     assert (Ty : pa || pb = true -> shty (out ++ [mkNode (OCustom (gadget_name g)) [a; b] [] [] t]) (zlen out)).
     { intros Hp. exists t. split; [apply out_ty_last|].
-      destruct (gadget_ty_shape _ _ _ _ Hg Ht) as [(La & Lb & _) | S]; [|exact S].
+      destruct (gadget_ty_shape _ _ _ _ Hg Ht) as [(La & Lb) | S]; [|exact S].
       apply orb_true_iff in Hp as [-> | ->].
       - rewrite (shty_not_leaf _ _ _ (Sa eq_refl) Hta) in La. discriminate.
       - rewrite (shty_not_leaf _ _ _ (Sb eq_refl) Htb) in Lb. discriminate. }
@@ -193,15 +204,15 @@ Section Correct.
     - apply rel_true_inv in Ra as (a0 & a1 & a2 & -> & Sx). apply rel_true_inv in Rb as (b0 & b1 & b2 & -> & Sy).
       destruct g as [| |p]; try destruct p; try discriminate; (eexists; split; [|split; [|split; [|split; [exact Ty | apply ext_app]]]];
         [eapply Ev; reflexivity | eapply Ev; reflexivity |]);
-        (do 4 eexists; split; [reflexivity | split; [reflexivity | cbn [gadget_plain bprod]; subst x y; ring]]).
+        (do 4 eexists; split; [reflexivity | split; [reflexivity | cbn [gadget_plain]; subst x y; repeat (rewrite bprod_add_l || rewrite bprod_add_r); ring]]).
     - apply rel_true_inv in Ra as (a0 & a1 & a2 & -> & Sx). subst vb.
       destruct g as [| |p]; try destruct p; try discriminate; (eexists; split; [|split; [|split; [|split; [exact Ty | apply ext_app]]]];
         [eapply Ev; reflexivity | eapply Ev; reflexivity |]);
-        (do 4 eexists; split; [reflexivity | split; [reflexivity | cbn [gadget_plain bprod]; subst x; ring]]).
+        (do 4 eexists; split; [reflexivity | split; [reflexivity | cbn [gadget_plain]; subst x; repeat (rewrite bprod_add_l || rewrite bprod_add_r); ring]]).
     - apply rel_true_inv in Rb as (b0 & b1 & b2 & -> & Sy). subst va.
       destruct g as [| |p]; try destruct p; try discriminate; (eexists; split; [|split; [|split; [|split; [exact Ty | apply ext_app]]]];
         [eapply Ev; reflexivity | eapply Ev; reflexivity |]);
-        (do 4 eexists; split; [reflexivity | split; [reflexivity | cbn [gadget_plain bprod]; subst y; ring]]).
+        (do 4 eexists; split; [reflexivity | split; [reflexivity | cbn [gadget_plain]; subst y; repeat (rewrite bprod_add_l || rewrite bprod_add_r); ring]]).
     - subst va vb.
       eexists; split; [|split; [|split; [|split; [exact Ty | apply ext_app]]]];
         [eapply Ev; reflexivity | eapply Ev; reflexivity | reflexivity].
@@ -385,7 +396,7 @@ Section Correct.
   Proof. destruct l as [|a [|]]; try discriminate. eauto. Qed.
 
   Lemma arith_case g priv i nd omap out out1 n1 flags flags' ins0c env_c ins_c env_s ins_s st' :
-    (n_op nd = OAdd /\ g = GAdd) \/ (n_op nd = OSubtract /\ g = GSub) \/ (n_op nd = OMultiply /\ g = GBil OMultiply) ->
+    (n_op nd = OAdd /\ g = GAdd) \/ (n_op nd = OSubtract /\ g = GSub) \/ (g = GBil (n_op nd) /\ is_bil (n_op nd) = true) ->
     (let* d0 := znth (n_deps nd) 0 in let* d1 := znth (n_deps nd) 1 in
      let* a := znth omap d0 in let* b := znth omap d1 in emit_gadget g [a; b] out) = Ok (out1, n1) ->
     node_priv priv i nd flags flags' ->
@@ -394,17 +405,18 @@ Section Correct.
     part1 priv i out out1 n1 flags' ins0c env_c ins_c env_s st'.
   Proof.
     intros Ho H1 Np Hs E Hin [_ Hinv].
-    assert (Hni : is_input (n_op nd) = false) by (destruct Ho as [[-> _] | [[-> _] | [-> _]]]; reflexivity).
-    assert (Hg : elem_gadget g = true) by (destruct Ho as [[_ ->] | [[_ ->] | [_ ->]]]; reflexivity).
+    assert (Hni : is_input (n_op nd) = false) by (destruct Ho as [[-> _] | [[-> _] | [_ Hb]]]; try reflexivity; destruct (n_op nd); try discriminate; reflexivity).
+    assert (Hg : elem_gadget g = true) by (destruct Ho as [[_ ->] | [[_ ->] | [-> Hb]]]; try reflexivity; exact Hb).
     destruct (dstep_noninput _ _ _ _ Hni Hs) as (vsl & v & Hm & Hv & ->).
     assert (Hxy : exists x y, vsl = [L x; L y] /\ v = L (gadget_plain R radd rmul rsub bil g x y)).
-    { destruct Ho as [[Ho ->] | [[Ho ->] | [Ho ->]]]; rewrite Ho in Hv; cbn [deval_node] in Hv; apply leaf2_inv in Hv; exact Hv. }
+    { destruct Ho as [[Ho ->] | [[Ho ->] | [-> Hb]]]; [rewrite Ho in Hv; cbn [deval_node] in Hv; apply leaf2_inv in Hv; exact Hv ..|].
+      destruct (n_op nd); try discriminate; cbn [deval_node] in Hv; apply leaf2_inv in Hv; exact Hv. }
     destruct Hxy as (x & y & -> & ->).
     destruct (list2_of_length _ (eq_sym (mapM_ok_length _ _ _ Hm))) as (d0 & d1 & Hd).
     rewrite Hd in Hm, H1. destruct (mapM2 _ _ _ _ Hm) as (vx & vy & Hl & Hx & Hy). inversion Hl; subst vx vy; clear Hl.
     assert (Np' : flags' = flags /\ mem i priv = mem d0 priv || mem d1 priv).
     { unfold node_priv in Np. rewrite Hd in Np. unfold is_one_node_private in Np. cbn [existsb] in Np. rewrite orb_false_r in Np.
-      destruct Ho as [[Ho _] | [[Ho _] | [Ho _]]]; rewrite Ho in Np; exact Np. }
+      destruct Ho as [[Ho _] | [[Ho _] | [_ Hb]]]; [rewrite Ho in Np; exact Np ..|]. destruct (n_op nd); try discriminate; exact Np. }
     destruct Np' as [-> Hb].
     destruct (Hinv _ _ Hx) as (ka & va & Hka & Hva & Ra & Sa). destruct (Hinv _ _ Hy) as (kb & vb & Hkb & Hvb & Rb & Sb).
     change (znth [d0; d1] 0) with (Ok d0) in H1. change (znth [d0; d1] 1) with (Ok d1) in H1. cbn [bind] in H1.
@@ -482,12 +494,30 @@ Section Correct.
       - eapply const_case; [exists t; split; [rewrite Ho; eauto 6 | exact Hth] | rewrite Ho; exact H1 | exact Np | exact Hs | exact E | exact Hin | exact HI].
       - eapply (arith_case GAdd); [rewrite Ho; auto | exact H1 | exact Np | exact Hs | exact E | exact Hin | exact HI].
       - eapply (arith_case GSub); [rewrite Ho; auto | exact H1 | exact Np | exact Hs | exact E | exact Hin | exact HI].
-      - eapply (arith_case (GBil OMultiply)); [rewrite Ho; auto | | exact Np | exact Hs | exact E | exact Hin | exact HI].
+      - eapply (arith_case (GBil OMultiply)); [rewrite Ho; right; right; split; reflexivity | | exact Np | exact Hs | exact E | exact Hin | exact HI].
         apply bind_ok in H1 as (d0 & Hd0 & H1). apply bind_ok in H1 as (d1 & Hd1 & H1).
         apply bind_ok in H1 as (a & Ha & H1). apply bind_ok in H1 as (b & Hb & H1).
-        apply bind_ok in H1 as (ta & Hta & H1). apply bind_ok in H1 as (tb & Htb & H1).
+        apply bind_ok in H1 as (tya & Htya & H1). apply bind_ok in H1 as (tyb & Htyb & H1).
         rewrite Hd0, Hd1. cbn [bind]. rewrite Ha, Hb. cbn [bind].
-        destruct (is_tuple ta && is_tuple tb); [destruct keys; [exact H1 | discriminate] | exact H1].
+        destruct (is_tuple tya && is_tuple tyb); [destruct keys; [exact H1 | discriminate] | exact H1].
+      - eapply (arith_case (GBil ODot)); [rewrite Ho; right; right; split; reflexivity | | exact Np | exact Hs | exact E | exact Hin | exact HI].
+        apply bind_ok in H1 as (d0 & Hd0 & H1). apply bind_ok in H1 as (d1 & Hd1 & H1).
+        apply bind_ok in H1 as (a & Ha & H1). apply bind_ok in H1 as (b & Hb & H1).
+        apply bind_ok in H1 as (tya & Htya & H1). apply bind_ok in H1 as (tyb & Htyb & H1).
+        rewrite Hd0, Hd1. cbn [bind]. rewrite Ha, Hb. cbn [bind].
+        destruct (is_tuple tya && is_tuple tyb); [destruct keys; [exact H1 | discriminate] | exact H1].
+      - eapply (arith_case (GBil OMatmul)); [rewrite Ho; right; right; split; reflexivity | | exact Np | exact Hs | exact E | exact Hin | exact HI].
+        apply bind_ok in H1 as (d0 & Hd0 & H1). apply bind_ok in H1 as (d1 & Hd1 & H1).
+        apply bind_ok in H1 as (a & Ha & H1). apply bind_ok in H1 as (b & Hb & H1).
+        apply bind_ok in H1 as (tya & Htya & H1). apply bind_ok in H1 as (tyb & Htyb & H1).
+        rewrite Hd0, Hd1. cbn [bind]. rewrite Ha, Hb. cbn [bind].
+        destruct (is_tuple tya && is_tuple tyb); [destruct keys; [exact H1 | discriminate] | exact H1].
+      - eapply (arith_case (GBil (OGemm ta tb))); [rewrite Ho; right; right; split; reflexivity | | exact Np | exact Hs | exact E | exact Hin | exact HI].
+        apply bind_ok in H1 as (d0 & Hd0 & H1). apply bind_ok in H1 as (d1 & Hd1 & H1).
+        apply bind_ok in H1 as (a & Ha & H1). apply bind_ok in H1 as (b & Hb & H1).
+        apply bind_ok in H1 as (tya & Htya & H1). apply bind_ok in H1 as (tyb & Htyb & H1).
+        rewrite Hd0, Hd1. cbn [bind]. rewrite Ha, Hb. cbn [bind].
+        destruct (is_tuple tya && is_tuple tyb); [destruct keys; [exact H1 | discriminate] | exact H1].
       - eapply lin_case; [exact Ho | exact Hth | exact H1 | exact Np | exact Hs | exact E | exact Hin | exact HI].
       - eapply lin_case; [exact Ho | exact Hth | exact H1 | exact Np | exact Hs | exact E | exact Hin | exact HI].
       - eapply lin_case; [exact Ho | exact Hth | exact H1 | exact Np | exact Hs | exact E | exact Hin | exact HI].
